@@ -45,6 +45,17 @@ fn sm2_sign() {
     assert!(oks.iter().all(|b| *b), "a genuine signature made beside another caller does not verify");
 }
 
+fn sm2_sign_shared() {
+    // both callers use the SAME key and the same ID for the first time at the same moment
+    // (a worker pool starting up): whatever is memoised per (ID, key) is filled by two callers
+    let (pk, sk) = gen_keypair().unwrap();
+    let sk2 = sk.clone();
+    let sigs = two(move |i| sk2.sign(Some("shared-signer"), &[0x40 + i as u8; 21]).unwrap());
+    for (i, sig) in sigs.iter().enumerate() {
+        assert!(pk.verify(Some("shared-signer"), &[0x40 + i as u8; 21], sig).is_ok(), "a signature made while another caller first used the same key does not verify");
+    }
+}
+
 fn sm2_keygen() {
     // the generator itself: two callers draw at once; what they get must differ
     let ds = two(|_| (0..3).map(|_| gen_keypair().unwrap().1.to_bytes_be()).collect::<Vec<_>>());
@@ -133,6 +144,7 @@ fn main() {
     match s.as_str() {
         "sm2-encrypt" => sm2_encrypt(),
         "sm2-sign" => sm2_sign(),
+        "sm2-sign-shared" => sm2_sign_shared(),
         "sm2-keygen" => sm2_keygen(),
         "sm2-decode" => sm2_decode(),
         "sm2-kex" => sm2_kex(),
@@ -140,7 +152,7 @@ fn main() {
         "sm9-kex1" => sm9_kex1(),
         "sm9-rng" => sm9_rng(),
         _ => {
-            eprintln!("scenarios: sm2-encrypt sm2-sign sm2-keygen sm2-decode sm2-kex zuc sm9-kex1 sm9-rng");
+            eprintln!("scenarios: sm2-encrypt sm2-sign sm2-sign-shared sm2-keygen sm2-decode sm2-kex zuc sm9-kex1 sm9-rng");
             std::process::exit(2)
         }
     }
